@@ -27,6 +27,12 @@ def overlayOp (j : Json) : Json :=
   | "open" => match «open» chain arg with
     | some (k, e) => O [("ok", B true), ("layer", N k), ("entry", entryJson e)]
     | none => O [("ok", B false)]
+  | "readfile" =>
+    -- fs.ReadFile(overlay, p): the overlay has no ReadFile of its own (see Generated.overlayMethods), so this is Open + read:
+    -- the file of the first layer that has the path; a directory there is an error
+    (match «open» chain arg with
+     | some (_, .file c) => O [("ok", B true), ("content", S c)]
+     | _ => O [("ok", B false)])
   | "readdir" => match readDirWith Generated.overlayErrRule chain arg with
     | some l => O [("ok", B true), ("entries", A (l.map (fun (n, d, k) => A [S n, B d, N k])))]
     | none => O [("ok", B false)]
